@@ -113,7 +113,7 @@ def bitLength (n : Nat) : Nat := if n = 0 then 0 else Nat.log2 n + 1
 /-- `pack(value, size, endian)`; `size = none` or `0` means "as many bytes as the value needs"; error = OverflowError -/
 def pack (value : Int) (size : Option Nat) (e : Endian) : Option Bytes :=
   let bits := match size with
-    | some 0 | none => bitLength value.natAbs
+    | some 0 | none => if value < 0 then bitLength (value.natAbs - 1) + 1 else bitLength value.natAbs   -- `(~value).bit_length() + 1`
     | some s => s
   encodeInt e ((bits + 7) / 8) (decide (value < 0)) value
 
